@@ -1,5 +1,7 @@
 import Proofs.C51Sums
 import Proofs.C51GenEq
+import Proofs.DuelingGenEq
+import Proofs.DuelingReal
 
 /-!
 # C18 — Rainbow's distributional target conserves probability mass and expected value
@@ -22,6 +24,12 @@ greedy selection of the target distribution, the loss) and `learn` (which batch 
 `Gen/C51Gen.lean`; `Proofs/C51GenEq.lean` proves the generated definitions equal to the model and the
 `C18_source_translation_*` theorems at the end restate the property over the generated definitions, so they are
 re-checked against what the code says now.
+
+Where the distributions come from (second part, `namespace Duel`): `DuelingDistributionalMLP.forward` and
+`RainbowQNetwork.forward` (custom_modules.py, q_networks.py) — the dueling combination, soft-max, the `1e-3`
+clamp, the expectation, `log_softmax` — modelled in `namespace Duel` of `Model/C51.lean`, translated by
+`harness/py2lean_dueling.py` into `Gen/DuelingGen.lean` (`Proofs/DuelingGenEq.lean`), theorems
+`C18_dueling_*` / `C18_source_translation_dueling_*`.
 -/
 namespace C51
 
@@ -435,3 +443,329 @@ example : C51Gen.dqn_loss (actor := fun _ => [0, 1]) (actor_q_False_log_True := 
 end source_translation
 
 end C51
+
+/-! ## the source of the distributions: the dueling distributional head
+
+`_dqn_loss` projects `actor_target(next, q=False)[greedy]` and picks `greedy = actor(next).argmax(1)`; both come
+from `RainbowQNetwork.forward` → `DuelingDistributionalMLP.forward` (agilerl/networks/q_networks.py,
+custom_modules.py), modelled per batch row in `namespace Duel` of `Model/C51.lean` and translated from the source
+text by `harness/py2lean_dueling.py` into `Gen/DuelingGen.lean` (`Proofs/DuelingGenEq.lean`: generated = model).
+Carrier: any linearly ordered field `K` with an abstract positive `exp` (instances: ℝ with `Real.exp`; ℚ with a
+positive table — what the driver runs and what composes with the projection theorems above), ℝ where `log` matters.
+All statements hold for every number of actions `A ≥ 1`, atoms `N ≥ 1` and all logits. -/
+namespace Duel
+
+section field
+variable {K : Type} [Field K] [LinearOrder K] [IsStrictOrderedRing K]
+
+/-- (i) **dueling identity**: the mean over the actions of the logits handed to the soft-max is the value net's
+    output, atom by atom (`value + advantage − advantage.mean(1)`) -/
+theorem C18_dueling_identity (F : Fn K) (hlit : ∀ n : Nat, F.lit (n : Rat) = (n : K)) (A N : Nat) (hA : 0 < A)
+    (value adv : List K) (hv : value.length = N) (ha : adv.length = A * N) :
+    colMean F A N (combine F A N value adv) = value :=
+  colMean_combine F hlit A N hA value adv hv ha
+
+/-- (ii) before the clamp every action's distribution is a probability vector: `N` positive entries that sum to
+    one — for any positive `exp` -/
+theorem C18_dueling_softmax_is_probability (F : Fn K) (hexp : ∀ x, 0 < F.exp x) (A N : Nat) (hN : 0 < N)
+    (value adv : List K) (hv : value.length = N) (ha : adv.length = A * N) :
+    ((combine F A N value adv).map (softmax F)).length = A ∧
+    ∀ p ∈ (combine F A N value adv).map (softmax F), p.length = N ∧ (∀ x ∈ p, 0 < x) ∧ p.sum = 1 := by
+  refine ⟨by simp [combine_length], ?_⟩
+  intro p hp
+  obtain ⟨row, hrow, rfl⟩ := List.mem_map.mp hp
+  have hl := combine_row_length F A N value adv hv ha row hrow
+  have hne : row ≠ [] := by intro e; rw [e] at hl; simp at hl; omega
+  exact ⟨by rw [softmax_length, hl], softmax_pos F hexp row, softmax_sum F hexp row hne⟩
+
+/-- (ii) over ℝ with Mathlib's `Real.exp` -/
+theorem C18_dueling_softmax_is_probability_real (A N : Nat) (hN : 0 < N) (value adv : List ℝ)
+    (hv : value.length = N) (ha : adv.length = A * N) :
+    ∀ p ∈ (combine realFn A N value adv).map (softmax realFn),
+      p.length = N ∧ (∀ x ∈ p, 0 < x) ∧ p.sum = 1 :=
+  (C18_dueling_softmax_is_probability realFn realFn_exp_pos A N hN value adv hv ha).2
+
+/-- (iii) what `forward(q=False)` returns — the soft-max after `.clamp(min=1e-3)`: `A` rows of `N` entries, every
+    entry at least `1e-3`, mass in `[1, 1 + N·1e-3]` (NOT a probability vector: mass 1 only if no entry is lifted) -/
+theorem C18_dueling_clamped_mass (F : Fn K) (hexp : ∀ x, 0 < F.exp x) (hfl : F.lit floorLit = (1 : K) / 1000)
+    (A N : Nat) (hN : 0 < N) (sup value adv : List K) (hv : value.length = N) (ha : adv.length = A * N) :
+    forward F A N sup value adv false false = Out.mat (dist F A N value adv) ∧
+    (dist F A N value adv).length = A ∧
+    ∀ p ∈ dist F A N value adv,
+      p.length = N ∧ (∀ x ∈ p, (1 : K) / 1000 ≤ x) ∧ 1 ≤ p.sum ∧ p.sum ≤ 1 + (N : K) * (1 / 1000) :=
+  ⟨rfl, dist_rows F hexp hfl A N hN value adv hv ha⟩
+
+end field
+
+/-- (iii) composed with mass conservation: the row `_dqn_loss` projects is a row of `forward(q=False)` of the
+    target network, so the projected target has exactly that row's mass, which lies in `[1, 1 + N·1e-3]` -/
+theorem C18_dueling_projected_mass (F : Fn Rat) (hexp : ∀ x, 0 < F.exp x) (hfl : F.lit floorLit = 1 / 1000)
+    (c : C51.Cfg) (hc : c.Valid) (g r d : Rat) (A : Nat) (value adv : List Rat)
+    (hv : value.length = c.N) (ha : adv.length = A * c.N) (a : Nat) (haA : a < A) :
+    let p := (dist F A c.N value adv).getD a []
+    (C51.projOne c g ⟨r, d, p⟩).sum = p.sum ∧ 1 ≤ p.sum ∧ p.sum ≤ 1 + (c.N : Rat) * (1 / 1000) := by
+  intro p
+  have hN : 0 < c.N := by have := hc.1; omega
+  obtain ⟨hlen, hrows⟩ := dist_rows F hexp hfl A c.N hN value adv hv ha
+  have hmem : p ∈ dist F A c.N value adv := by
+    have : a < (dist F A c.N value adv).length := by omega
+    simp only [p, List.getD_eq_getElem _ _ this]
+    exact List.getElem_mem this
+  obtain ⟨hpl, _, h1, h2⟩ := hrows p hmem
+  exact ⟨C51.mass_projOne c hc.1 g ⟨r, d, p⟩ hpl, h1, h2⟩
+
+section anycarrier
+variable {α : Type} [Add α] [Sub α] [Mul α] [Div α] [Zero α] [Max α]
+
+/-- (iv) `forward(q=True)` is, action by action, the expectation `Σ_j dist_j · support_j` of exactly the
+    distributions `forward(q=False)` returns for the same input; so its arg-max is the arg-max of those means -/
+theorem C18_dueling_q_is_expectation (F : Fn α) (A N : Nat) (sup value adv : List α) :
+    ∃ m, forward F A N sup value adv false false = Out.mat m ∧
+      forward F A N sup value adv true false = Out.vec (m.map (expect sup)) :=
+  ⟨dist F A N value adv, rfl, rfl⟩
+
+/-- (v) with `log=True` the flag `q` is ignored and the result is `log_softmax` of the SAME logits — no clamp -/
+theorem C18_dueling_log_is_unclamped (F : Fn α) (A N : Nat) (sup value adv : List α) (q : Bool) :
+    forward F A N sup value adv q true = Out.mat ((combine F A N value adv).map (logSoftmax F)) := rfl
+
+end anycarrier
+
+/-- (v) over ℝ: `forward(log=True)` is the entry-wise logarithm of the UNclamped soft-max … -/
+theorem C18_dueling_log_real (A N : Nat) (sup value adv : List ℝ) (q : Bool) :
+    forward realFn A N sup value adv q true =
+      Out.mat ((combine realFn A N value adv).map fun row => (softmax realFn row).map Real.log) := by
+  rw [C18_dueling_log_is_unclamped]
+  congr 1
+  apply List.map_congr_left
+  intro row _
+  exact logSoftmax_eq_log_softmax row
+
+/-- … so it is NOT the logarithm of `forward(q=False)` wherever the clamp is active: for every row of logits and
+    every atom whose soft-max probability is below `1e-3`, `forward(log=True)` is strictly below
+    `log(forward(q=False))` -/
+theorem C18_dueling_log_below_log_of_clamped (row : List ℝ) (j : Nat) (hj : j < row.length)
+    (hlow : (softmax realFn row).getD j 0 < 1 / 1000) :
+    (logSoftmax realFn row).getD j 0 <
+      Real.log (((softmax realFn row).map fun p => max p (realFn.lit floorLit)).getD j 0) :=
+  log_clamped_gt row j hj hlow
+
+/-- witness: one action, two atoms, value logits `[0, 1000]`, advantage `[0, 0]` — the logits are `[0, 1000]`,
+    atom 0 has probability `1/(1 + e^1000) < 1e-3`; `log(q=False)` and `log=True` differ there -/
+theorem C18_dueling_log_differs_witness :
+    ¬ (∀ (A N : Nat) (value adv : List ℝ) (a j : Nat),
+        (((combine realFn A N value adv).map (logSoftmax realFn)).getD a []).getD j 0 =
+          Real.log (((dist realFn A N value adv).getD a []).getD j 0)) := by
+  intro h
+  have e := h 1 2 [0, 1000] [0, 0] 0 0
+  have hc : combine realFn 1 2 [0, 1000] [0, 0] = [[0, 1000]] := by
+    simp [combine, rows, colMean, realFn, List.range_succ]
+  have hd : dist realFn 1 2 [0, 1000] [0, 0] =
+      [(softmax realFn [0, 1000]).map fun p => max p (realFn.lit floorLit)] := by
+    simp only [dist, hc, List.map_cons, List.map_nil]
+  rw [hc, hd] at e
+  have := C18_dueling_log_below_log_of_clamped [0, 1000] 0 (by simp) witness_low
+  simp only [List.map_cons, List.map_nil, List.getD_cons_zero] at e this
+  linarith
+
+/-! ### non-vacuity: two actions, two atoms, `exp` tabulated by powers of two -/
+
+def exFn : Fn Rat := { lit := fun q => q, exp := fun x => if x = 0 then 1 else if x = 1 then 2 else 4, log := fun _ => 0 }
+example : combine exFn 2 2 [0, 1] [1, 0, -1, 0] = [[1, 1], [-1, 1]] := by decide +kernel
+example : colMean exFn 2 2 (combine exFn 2 2 [0, 1] [1, 0, -1, 0]) = [0, 1] := by decide +kernel
+example : dist exFn 2 2 [0, 1] [1, 0, -1, 0] = [[1/2, 1/2], [2/3, 1/3]] := by decide +kernel
+example : (dist exFn 2 2 [0, 1] [1, 0, -1, 0]).map (expect [-1, 1]) = [0, -1/3] := by decide +kernel
+example : ∀ x, 0 < exFn.exp x := by intro x; unfold exFn; simp only; split_ifs <;> norm_num
+noncomputable example : ∃ F : Fn ℝ, (∀ x, 0 < F.exp x) ∧ F.lit floorLit = 1 / 1000 ∧ ∀ n : Nat, F.lit (n : Rat) = (n : ℝ) :=
+  ⟨realFn, realFn_exp_pos, realFn_floor, realFn_lit_nat⟩
+
+/-! ### the same over the definitions generated from the source text (`Gen/DuelingGen.lean`)
+
+Inputs of the generated definitions: the head's attributes `self_num_actions / self_num_atoms / self_support`, the
+outputs of its two sub-networks — pinned BY NAME (`model_out`: the value net, `advantage_net_out`) — and the flags
+`q`, `log`; for the network: `extract_features` and the two sub-networks as opaque functions. -/
+section source_translation_dueling
+
+/-- every generated definition equals its counterpart in the hand-written model -/
+theorem C18_source_translation_dueling_equalities {α : Type} [Add α] [Sub α] [Mul α] [Div α] [Zero α] [Max α]
+    {Obs Latent S : Type} (P : DuelingGen.Prims α) (A N : Nat) (sup adv value : List α) (q log : Bool)
+    (ef : Obs → Latent) (advNet valNet : Latent → List α) (obs : Obs) (s : S) :
+    DuelingGen.softmax_arg P A N sup (advantage_net_out := adv) (model_out := value) = combine (ofPrims P) A N value adv ∧
+    DuelingGen.log_softmax_arg P A N sup (advantage_net_out := adv) (model_out := value) = combine (ofPrims P) A N value adv ∧
+    ofOut (DuelingGen.forward P A N sup (advantage_net_out := adv) (model_out := value) (q := q) (log := log)) =
+      forward (ofPrims P) A N sup value adv q log ∧
+    ofOut (DuelingGen.net_forward P A N sup (extract_features := ef) (head_advantage_net := advNet)
+        (head_model := valNet) obs (q := q) (log := log)) =
+      forward (ofPrims P) A N sup (valNet (ef obs)) (advNet (ef obs)) q log ∧
+    (DuelingGen.value_width N A = N ∧ DuelingGen.advantage_width N A = A * N ∧
+      DuelingGen.recreate_advantage_width A N = A * N) ∧
+    DuelingGen.net_init_attrs N s = (N, s) :=
+  ⟨gen_softmax_arg_eq P A N sup adv value, gen_log_softmax_arg_eq P A N sup adv value,
+   gen_forward_eq P A N sup adv value q log, gen_net_forward_eq P A N sup ef advNet valNet obs q log,
+   gen_widths_eq A N, rfl⟩
+
+/-- **support and num_atoms survive every rebuild, over the generated code**: the head `build_network_head`
+    constructs and the head `recreate_network` constructs both get the network's `(num_actions, num_atoms,
+    support)`; the advantage net the head's own `recreate_network` rebuilds has the width `__init__` gave it -/
+theorem C18_source_translation_dueling_rebuild {S : Type} (A N : Nat) (sup : S) :
+    (let c := DuelingGen.net_head_args_build A N sup; DuelingGen.init_attrs c.1 c.2.1 c.2.2) = (A, N, sup) ∧
+    (let c := DuelingGen.net_head_args_recreate A N sup; DuelingGen.init_attrs c.1 c.2.1 c.2.2) = (A, N, sup) ∧
+    DuelingGen.recreate_advantage_width A N = DuelingGen.advantage_width N A :=
+  ⟨(gen_head_attrs_eq A N sup).1, (gen_head_attrs_eq A N sup).2, rfl⟩
+
+section field
+variable {K : Type} [Field K] [LinearOrder K] [IsStrictOrderedRing K]
+
+/-- **(i) over the generated code**: the logits handed to `softmax` and to `log_softmax` are the same, and their
+    mean over the actions (`meanRows`, the generated `t.mean(1, keepdim=True)`) is the value net's output -/
+theorem C18_source_translation_dueling_identity (P : DuelingGen.Prims K) (hlit : ∀ n : Nat, P.lit (n : Rat) = (n : K))
+    (A N : Nat) (hA : 0 < A) (sup value adv : List K) (hv : value.length = N) (ha : adv.length = A * N) :
+    DuelingGen.log_softmax_arg P A N sup (advantage_net_out := adv) (model_out := value) =
+      DuelingGen.softmax_arg P A N sup (advantage_net_out := adv) (model_out := value) ∧
+    DuelingGen.meanRows P A N (DuelingGen.softmax_arg P A N sup (advantage_net_out := adv) (model_out := value)) =
+      [value] := by
+  rw [gen_log_softmax_arg_eq, gen_softmax_arg_eq, gen_meanRows_eq]
+  exact ⟨rfl, by rw [colMean_combine (ofPrims P) hlit A N hA value adv hv ha]⟩
+
+/-- **(ii) + (iii) over the generated code**: `forward(q=False, log=False)` returns a matrix `m` of `A` rows; row
+    `a` is the soft-max of row `a` of the generated logits — `N` positive entries summing to one — clamped from
+    below entry by entry: every entry `≥ 1e-3`, mass in `[1, 1 + N·1e-3]` -/
+theorem C18_source_translation_dueling_clamped_mass (P : DuelingGen.Prims K) (hexp : ∀ x, 0 < P.exp x)
+    (hfl : P.lit (1 / 1000) = (1 : K) / 1000) (A N : Nat) (hN : 0 < N) (sup value adv : List K)
+    (hv : value.length = N) (ha : adv.length = A * N) :
+    ∃ m, DuelingGen.forward P A N sup (advantage_net_out := adv) (model_out := value) (q := false) (log := false)
+          = DuelingGen.Out.mat m ∧
+      m.length = A ∧
+      m = (DuelingGen.softmax_arg P A N sup (advantage_net_out := adv) (model_out := value)).map
+            (fun row => (DuelingGen.softmaxRow P row).map fun p => max p (1 / 1000)) ∧
+      (∀ row ∈ DuelingGen.softmax_arg P A N sup (advantage_net_out := adv) (model_out := value),
+        (DuelingGen.softmaxRow P row).length = N ∧ (∀ x ∈ DuelingGen.softmaxRow P row, 0 < x) ∧
+        (DuelingGen.softmaxRow P row).sum = 1) ∧
+      ∀ p ∈ m, p.length = N ∧ (∀ x ∈ p, (1 : K) / 1000 ≤ x) ∧ 1 ≤ p.sum ∧ p.sum ≤ 1 + (N : K) * (1 / 1000) := by
+  have hfl' : (ofPrims P).lit floorLit = (1 : K) / 1000 := by simpa [ofPrims, floorLit] using hfl
+  have e := gen_forward_eq P A N sup adv value false false
+  obtain ⟨hlen, hrows⟩ := dist_rows (ofPrims P) hexp hfl' A N hN value adv hv ha
+  have hprob := C18_dueling_softmax_is_probability (ofPrims P) hexp A N hN value adv hv ha
+  refine ⟨dist (ofPrims P) A N value adv, ?_, hlen, ?_, ?_, hrows⟩
+  · cases hf : DuelingGen.forward P A N sup (advantage_net_out := adv) (model_out := value) (q := false) (log := false) with
+    | vec v => rw [hf] at e; simp [ofOut, forward] at e
+    | mat m => rw [hf] at e; simp only [ofOut, forward] at e; simp at e; rw [e]
+  · rw [gen_softmax_arg_eq]
+    unfold dist
+    apply List.map_congr_left
+    intro row _
+    rw [gen_softmaxRow_eq, hfl']
+  · intro row hrow
+    rw [gen_softmax_arg_eq] at hrow
+    rw [gen_softmaxRow_eq]
+    exact hprob.2 _ (List.mem_map.mpr ⟨row, hrow, rfl⟩)
+
+end field
+
+/-- the rows / the vector inside what the generated `forward` returns -/
+def matOf {α : Type} : DuelingGen.Out α → List (List α)
+  | .mat m => m
+  | .vec _ => []
+def vecOf {α : Type} : DuelingGen.Out α → List α
+  | .vec v => v
+  | .mat _ => []
+
+/-- **(iii) composed with the projection, over both generated files**: the row that the generated `_dqn_loss`
+    projects when the target network is a `RainbowQNetwork` (`actor_target(next, q=False)[a]`, computed by the
+    generated `net_forward`) has mass in `[1, 1 + N·1e-3]`, and the generated projection has exactly that mass -/
+theorem C18_source_translation_dueling_projected_mass {Obs Latent : Type} (P : DuelingGen.Prims Rat)
+    (hexp : ∀ x, 0 < P.exp x) (hfl : P.lit (1 / 1000) = 1 / 1000) (c : C51.Cfg) (hc : c.Valid) (g r d : Rat) (A : Nat)
+    (ef : Obs → Latent) (advNet valNet : Latent → List Rat) (next_obs : Obs)
+    (hv : (valNet (ef next_obs)).length = DuelingGen.value_width c.N A)
+    (ha : (advNet (ef next_obs)).length = DuelingGen.advantage_width c.N A) (a : Nat) (haA : a < A) :
+    let p := (matOf (DuelingGen.net_forward P A c.N (C51Gen.support0 c.N c.vmax c.vmin) (extract_features := ef)
+        (head_advantage_net := advNet) (head_model := valNet) next_obs (q := false) (log := false))).getD a []
+    (C51.genProject c g r d p).sum = p.sum ∧ 1 ≤ p.sum ∧ p.sum ≤ 1 + (c.N : Rat) * (1 / 1000) := by
+  intro p
+  have hfl' : (ofPrims P).lit floorLit = (1 : Rat) / 1000 := by simpa [ofPrims, floorLit] using hfl
+  have e := gen_net_forward_eq P A c.N (C51Gen.support0 c.N c.vmax c.vmin) ef advNet valNet next_obs false false
+  have hp : p = (dist (ofPrims P) A c.N (valNet (ef next_obs)) (advNet (ef next_obs))).getD a [] := by
+    simp only [p]
+    cases hf : DuelingGen.net_forward P A c.N (C51Gen.support0 c.N c.vmax c.vmin) (extract_features := ef)
+        (head_advantage_net := advNet) (head_model := valNet) next_obs (q := false) (log := false) with
+    | vec v => rw [hf] at e; simp [ofOut, forward] at e
+    | mat m => rw [hf] at e; simp only [ofOut, forward] at e; simp at e; simp [matOf, e]
+  rw [hp, C51.genProject_eq]
+  exact C18_dueling_projected_mass (ofPrims P) hexp hfl' c hc g r d A _ _ hv ha a haA
+
+section anycarrier
+variable {α : Type} [Add α] [Sub α] [Mul α] [Div α] [Zero α] [Max α]
+
+/-- **(iv) over the generated code**: `forward(q=True)` is `Σ_j dist_j · support_j` of the rows `forward(q=False)`
+    returns for the same sub-network outputs (whatever `exp` is) -/
+theorem C18_source_translation_dueling_q_is_expectation (P : DuelingGen.Prims α) (A N : Nat) (sup value adv : List α) :
+    vecOf (DuelingGen.forward P A N sup (advantage_net_out := adv) (model_out := value) (q := true) (log := false)) =
+      (matOf (DuelingGen.forward P A N sup (advantage_net_out := adv) (model_out := value) (q := false) (log := false))).map
+        fun p => (List.zipWith (· * ·) p sup).sum := by
+  have e1 := gen_forward_eq P A N sup adv value true false
+  have e2 := gen_forward_eq P A N sup adv value false false
+  cases h1 : DuelingGen.forward P A N sup (advantage_net_out := adv) (model_out := value) (q := true) (log := false) with
+  | mat m => rw [h1] at e1; simp [ofOut, forward] at e1
+  | vec v =>
+    cases h2 : DuelingGen.forward P A N sup (advantage_net_out := adv) (model_out := value) (q := false) (log := false) with
+    | vec v' => rw [h2] at e2; simp [ofOut, forward] at e2
+    | mat m =>
+      rw [h1] at e1; rw [h2] at e2
+      simp only [ofOut, forward] at e1 e2
+      simp at e1 e2
+      simp only [vecOf, matOf, e1, e2]
+      rfl
+
+/-- **(v) over the generated code**: with `log=True` the flag `q` is ignored and the result is `log_softmax`, row by
+    row, of the same logits the soft-max gets — no clamp -/
+theorem C18_source_translation_dueling_log (P : DuelingGen.Prims α) (A N : Nat) (sup value adv : List α) (q : Bool) :
+    DuelingGen.forward P A N sup (advantage_net_out := adv) (model_out := value) (q := q) (log := true) =
+      DuelingGen.Out.mat ((DuelingGen.softmax_arg P A N sup (advantage_net_out := adv) (model_out := value)).map
+        (DuelingGen.logSoftmaxRow P)) := by
+  cases q <;> rfl
+
+end anycarrier
+
+/-- **the greedy target, over both generated files**: when online and target network are `RainbowQNetwork`s, the
+    distribution the generated `_dqn_loss` projects is row `a*` of the TARGET network's `forward(q=False)` where
+    `a*` is the first arg-max of the expectations `Σ_j dist_j · support_j` of the ONLINE network's own
+    `forward(q=False)` rows for the next observation -/
+theorem C18_source_translation_dueling_greedy_target {Obs Latent : Type} (P : DuelingGen.Prims Rat) (A N : Nat)
+    (sup : List Rat) (ef efT : Obs → Latent) (advNet valNet advNetT valNetT : Latent → List Rat) (next_obs : Obs) :
+    let online := fun (q : Bool) (o : Obs) => DuelingGen.net_forward P A N sup (extract_features := ef)
+        (head_advantage_net := advNet) (head_model := valNet) o (q := q) (log := false)
+    let target := fun (o : Obs) => DuelingGen.net_forward P A N sup (extract_features := efT)
+        (head_advantage_net := advNetT) (head_model := valNetT) o (q := false) (log := false)
+    C51Gen.target_dist (actor := fun o => vecOf (online true o)) (actor_target_q_False := fun o => matOf (target o))
+        next_obs =
+      (matOf (target next_obs)).getD
+        (C51.argmaxFirst ((matOf (online false next_obs)).map fun p => (List.zipWith (· * ·) p sup).sum)) [] := by
+  intro online target
+  unfold C51Gen.target_dist
+  rw [C51.gen_argmaxFirst_eq]
+  have := C18_source_translation_dueling_q_is_expectation P A N sup (valNet (ef next_obs)) (advNet (ef next_obs))
+  simp only [online]
+  exact congrArg (fun v => (matOf (target next_obs)).getD (C51.argmaxFirst v) []) this
+
+/-- **(v) over ℝ, over the generated code**: with Mathlib's `exp` / `log` the rows `forward(log=True)` returns are the
+    logarithms of the UNclamped soft-max rows; they are strictly below the logarithm of what `forward(q=False)`
+    returns wherever the soft-max is below `1e-3` -/
+theorem C18_source_translation_dueling_log_real (P : DuelingGen.Prims ℝ) (hexp : P.exp = Real.exp)
+    (hlog : P.log = Real.log) (row : List ℝ) :
+    DuelingGen.logSoftmaxRow P row = (DuelingGen.softmaxRow P row).map Real.log ∧
+    ∀ j, j < row.length → (DuelingGen.softmaxRow P row).getD j 0 < 1 / 1000 →
+      (DuelingGen.logSoftmaxRow P row).getD j 0 <
+        Real.log (((DuelingGen.softmaxRow P row).map fun p => max p (1 / 1000)).getD j 0) := by
+  have hF : ∀ r, softmax (ofPrims P) r = softmax realFn r := by
+    intro r; simp [softmax, ofPrims, realFn, hexp]
+  have hL : ∀ r, logSoftmax (ofPrims P) r = logSoftmax realFn r := by
+    intro r; simp [logSoftmax, ofPrims, realFn, hexp, hlog]
+  rw [gen_softmaxRow_eq, gen_logSoftmaxRow_eq, hF, hL]
+  refine ⟨logSoftmax_eq_log_softmax row, ?_⟩
+  intro j hj hlow
+  have := log_clamped_gt row j hj hlow
+  rw [realFn_floor] at this
+  exact this
+
+end source_translation_dueling
+
+end Duel
